@@ -60,3 +60,138 @@ Proof.
       assert (He0 : A.r_end_sequence (A.init_regs (W.params_of l)) = false) by reflexivity.
       destruct (srun_iso e l h new _ _ _ HM Nos He0 Run) as [Iso _]. rewrite Iso. reflexivity.
 Qed.
+
+(* ------------------------------------------------------------------ the header, versions 2-4 *)
+Local Open Scope N_scope.
+
+Definition dir4_ok (d : W.lstr) : Prop := exists s, d = W.LStr s /\ s <> [] /\ no_nul s = true.
+Definition file4_ok (f : (W.lstr * N) * W.finfo) : Prop :=
+  exists s, fst (fst f) = W.LStr s /\ s <> [] /\ no_nul s = true /\ snd (fst f) < two64 /\
+            W.fi_timestamp (snd f) < two64 /\ W.fi_size (snd f) < two64.
+
+Definition lstr_val (d : W.lstr) : form_val := match d with W.LStr s => VString s | _ => VString [] end.
+Definition raw_dir4 (d : W.lstr) : list form_val := [lstr_val d].
+Definition raw_file4 (f : (W.lstr * N) * W.finfo) : list form_val :=
+  [lstr_val (fst (fst f)); VUdata (snd (fst f)); VUdata (W.fi_timestamp (snd f)); VUdata (W.fi_size (snd f))].
+
+(* the raw header (LineSpec vocabulary) that LineProgram::write emits for versions 2-4 *)
+Definition raw4 (p : W.prog) : raw_header :=
+  let e := W.p_enc p in let l := W.p_lenc p in
+  mk_raw (W.e_fmt64 e) (W.e_version e) (W.e_addr_size e) (W.le_min_len l) (W.le_max_ops l)
+         (W.le_default_is_stmt l) (W.le_line_base l) (W.le_line_range l) 13 W.std_opcode_lengths
+         [] (map raw_dir4 (tl (W.p_dirs p))) [] (map raw_file4 (W.p_files p)).
+
+Lemma dirs_write4 dbg be e ls ss : forall ds, W.e_version e <= 4 -> Forall dir4_ok ds ->
+  W.dirs_write dbg be W.DW_FORM_string e ls ss ds =
+  Ok (concat (map (enc_entry be (W.e_fmt64 e) dir_fmt_v4) (map raw_dir4 ds))).
+Proof.
+  induction ds as [|d ds IH]; intros Hv F; [reflexivity|].
+  inversion F as [|x xs (s & -> & Hs & Hn) F']; subst. cbn [W.dirs_write map concat].
+  unfold W.lstr_write. cbn [W.lstr_form]. change (W.DW_FORM_string =? W.DW_FORM_string) with true. cbn [negb].
+  destruct s as [|b s]; [contradiction|]. rewrite andb_false_r. cbn [bind]. rewrite (IH Hv F'). cbn [bind].
+  cbn [raw_dir4 lstr_val enc_entry dir_fmt_v4 enc_val ef_form]. change (FORM_string =? FORM_string) with true.
+  cbv iota. now rewrite app_nil_r.
+Qed.
+
+Lemma files_write4 dbg be e ls ss : forall fs, W.e_version e <= 4 -> Forall file4_ok fs ->
+  W.files_write_v4 dbg be e ls ss fs =
+  Ok (concat (map (enc_entry be (W.e_fmt64 e) file_fmt_v4) (map raw_file4 fs))).
+Proof.
+  induction fs as [|[[fl dir] info] fs IH]; intros Hv F; [reflexivity|].
+  inversion F as [|x xs (s & Hf & Hs & Hn & Hd & Ht & Hz) F']; subst x xs.
+  cbn [fst snd] in *. subst fl. cbn [W.files_write_v4 map concat].
+  unfold W.lstr_write. cbn [W.lstr_form]. change (W.DW_FORM_string =? W.DW_FORM_string) with true. cbn [negb].
+  destruct s as [|b s]; [contradiction|]. rewrite andb_false_r. cbn [bind].
+  rewrite !write_uleb128_enc by assumption. cbn [bind]. rewrite (IH Hv F'). cbn [bind].
+  cbn [raw_file4 lstr_val fst snd enc_entry file_fmt_v4 enc_val ef_form].
+  change (FORM_string =? FORM_string) with true. change (FORM_udata =? FORM_udata) with true. cbv iota.
+  rewrite app_nil_r, <- !app_assoc. reflexivity.
+Qed.
+
+Lemma enc_word_udata be (fmt64 : bool) v : v < (if fmt64 then two64 else 4294967296) ->
+  write_udata be v (word_size fmt64) = Ok (enc_word be fmt64 v).
+Proof.
+  intros H. unfold enc_word, word_size. destruct fmt64.
+  - apply (write_udata_enc be v 8); [right; right; right; reflexivity|exact H].
+  - apply (write_udata_enc be v 4); [right; right; left; reflexivity|exact H].
+Qed.
+
+Lemma write_initial_length_enc be (fmt64 : bool) v : v < (if fmt64 then two64 else 4294967280) ->
+  write_initial_length fmt64 be v =
+  Ok ((if fmt64 then enc_fixed 4 be 4294967295 else []) ++ enc_word be fmt64 v).
+Proof.
+  intros H. unfold write_initial_length.
+  destruct fmt64; cbn [negb andb].
+  - rewrite enc_word_udata by exact H. cbn [bind]. now rewrite enc_un_fixed.
+  - destruct (N.leb_spec 4294967280 v); [lia|]. cbn [andb].
+    rewrite enc_word_udata by lia. reflexivity.
+Qed.
+
+Lemma header_body4 be p : W.e_version (W.p_enc p) <= 4 ->
+  (W.e_version (W.p_enc p) < 4 -> W.le_max_ops (W.p_lenc p) = 1) ->
+  forall mo, mo = (if 4 <=? W.e_version (W.p_enc p) then [n2b (W.le_max_ops (W.p_lenc p))] else []) ->
+  ([n2b (W.le_min_len (W.p_lenc p))] ++ mo ++ [n2b (W.b2N (W.le_default_is_stmt (W.p_lenc p)))]
+     ++ [n2b (of_signed 8 (W.le_line_base (W.p_lenc p))); n2b (W.le_line_range (W.p_lenc p)); n2b W.OPCODE_BASE]
+     ++ W.std_opcode_lengths)
+  ++ (concat (map (enc_entry be (W.e_fmt64 (W.p_enc p)) dir_fmt_v4) (map raw_dir4 (tl (W.p_dirs p)))) ++ [x00]
+      ++ concat (map (enc_entry be (W.e_fmt64 (W.p_enc p)) file_fmt_v4) (map raw_file4 (W.p_files p))) ++ [x00])
+  = enc_header_body be (raw4 p).
+Proof.
+  intros Hv Hm mo ->. unfold enc_header_body, raw4.
+  cbn [rh_version rh_min_inst_len rh_max_ops rh_default_is_stmt rh_line_base rh_line_range rh_opcode_base
+       rh_std_lengths rh_dirs rh_files rh_fmt64].
+  destruct (N.leb_spec (W.e_version (W.p_enc p)) 4) as [_|Hc]; [|lia].
+  replace (n2b (W.b2N (W.le_default_is_stmt (W.p_lenc p)))) with (if W.le_default_is_stmt (W.p_lenc p) then x01 else x00)
+    by (destruct (W.le_default_is_stmt (W.p_lenc p)); reflexivity).
+  change (of_signed 8 (W.le_line_base (W.p_lenc p))) with (Z.to_N (W.le_line_base (W.p_lenc p) mod 256)%Z).
+  unfold W.OPCODE_BASE. rewrite <- !app_assoc. reflexivity.
+Qed.
+
+(* LineProgram::write for versions 2-4 produces exactly the reference encoding of raw4 *)
+Lemma write_v4 dbg be p unit_enc ls ss prog :
+  2 <= W.e_version (W.p_enc p) <= 4 ->
+  W.e_addr_size unit_enc = W.e_addr_size (W.p_enc p) ->
+  (W.e_version (W.p_enc p) < 4 -> W.le_max_ops (W.p_lenc p) = 1) ->
+  Forall dir4_ok (tl (W.p_dirs p)) -> Forall file4_ok (W.p_files p) ->
+  W.insns_write dbg be (W.p_enc p) (W.p_insns p) = Ok prog ->
+  len_n (enc_after_len be (raw4 p) prog) < (if W.e_fmt64 (W.p_enc p) then two64 else 4294967280) ->
+  W.write dbg be p unit_enc ls ss = Ok (enc_unit be (raw4 p) prog, ls, ss).
+Proof.
+  intros Hv Hasz Hm Fd Ff Hins Hlen.
+  set (e := W.p_enc p) in *. set (l := W.p_lenc p) in *.
+  unfold W.write. fold e l.
+  destruct (N.leb_spec 5 (W.e_version e)) as [Hc|_]; [lia|]. rewrite andb_false_r.
+  rewrite Hasz, N.eqb_refl. cbn [negb orb].
+  destruct (N.ltb_spec (W.e_version e) 2) as [Hc|_]; [lia|].
+  destruct (N.ltb_spec 5 (W.e_version e)) as [Hc|_]; [lia|]. cbn [orb].
+  assert (Emo : (if 4 <=? W.e_version e then Ok [n2b (W.le_max_ops l)]
+                 else if negb (W.le_max_ops l =? 1) then Err WNeedVersion else Ok [])
+                = Ok (if 4 <=? W.e_version e then [n2b (W.le_max_ops l)] else [])).
+  { destruct (N.leb_spec 4 (W.e_version e)); [reflexivity|]. rewrite Hm by lia. reflexivity. }
+  rewrite Emo. cbn [bind].
+  destruct (N.leb_spec (W.e_version e) 4) as [_|Hc]; [|lia].
+  rewrite (dirs_write4 dbg be e ls ss _ ltac:(lia) Fd). cbn [bind].
+  rewrite (files_write4 dbg be e ls ss _ ltac:(lia) Ff). cbn [bind].
+  pose proof (header_body4 be p ltac:(fold e; lia) Hm _ eq_refl) as Ehdr. fold e l in Ehdr.
+  rewrite Ehdr.
+  (* lengths *)
+  unfold enc_after_len in Hlen. cbn [raw4 rh_version rh_fmt64 rh_addr_size] in Hlen. fold e l in Hlen.
+  destruct (N.leb_spec 5 (W.e_version e)) as [Hc|_]; [lia|].
+  unfold len_n in Hlen. rewrite !app_length, enc_fixed_length in Hlen.
+  set (body := enc_header_body be (raw4 p)) in *.
+  assert (Hbl : N.of_nat (length body) < (if W.e_fmt64 e then two64 else 4294967296))
+    by (destruct (W.e_fmt64 e); unfold two64 in *; lia).
+  rewrite enc_word_udata by exact Hbl. cbn [bind]. rewrite Hins. cbn [bind].
+  rewrite !enc_un_fixed.
+  match goal with |- context [write_initial_length _ _ (N.of_nat (length ?b))] => set (after := b) end.
+  assert (Eafter : after = enc_after_len be (raw4 p) prog).
+  { unfold after, enc_after_len. cbn [raw4 rh_version rh_fmt64 rh_addr_size]. fold e l.
+    destruct (N.leb_spec 5 (W.e_version e)) as [Hc|_]; [lia|]. cbn [app]. fold body. unfold len_n.
+    rewrite <- !app_assoc. reflexivity. }
+  rewrite write_initial_length_enc.
+  - cbn [bind]. unfold enc_unit. cbn [raw4 rh_fmt64]. fold e. rewrite Eafter. unfold len_n.
+    rewrite <- !app_assoc. reflexivity.
+  - rewrite Eafter. unfold enc_after_len. cbn [raw4 rh_version rh_fmt64 rh_addr_size]. fold e l.
+    destruct (N.leb_spec 5 (W.e_version e)) as [Hc|_]; [lia|]. fold body.
+    unfold len_n. rewrite !app_length, enc_fixed_length. exact Hlen.
+Qed.
